@@ -32,6 +32,7 @@ REG = Registry(
                  'Demes.output is history-dependent by design (it exports the last model run), so an export op runs its model first'])
 
 TOL = 1e-12
+CRASHY = True        # a compiled kernel handed a badly laid-out array can kill the worker: that is a violation, not a harness error
 _SERVERS = {}
 
 
@@ -90,7 +91,7 @@ def nontrivial_history(h):
     return any(len(v) >= 2 for v in seen.values())
 
 
-@REG.relation('R1-history-independence', strategy=history_case, quick=(96, 16), thorough=(3000, 16))
+@REG.relation('R1-history-independence', strategy=history_case, quick=(192, 16), thorough=(4000, 16))
 def r1(case, rec):
     """Every call in a history of 2-40 calls returns what the same call returns in a fresh interpreter; no call modifies its
     inputs or returns an alias of them."""
@@ -99,6 +100,8 @@ def r1(case, rec):
     resp = ask(h)
     for i, (a, s, f) in enumerate(zip(h, resp['seq'], resp['fresh'])):
         if 'error' in f:
+            if f['error'].startswith('child died'):
+                raise Violation('call %d of the history (%s) kills a fresh interpreter' % (i + 1, describe(a)), op=a['op'])
             if 'error' in s:
                 continue            # the call fails on its own: not a statement about history (other properties judge that)
             raise Violation('call %d of the history (%s) succeeded after %d earlier calls but fails in a fresh interpreter: %s'
